@@ -402,16 +402,18 @@ def am(cx):
             objs = [I.call(Chunk, [Sym(Poly.atom(f"s{i}")), Sym(Poly.atom(f"e{i}"))], {}) for i in range(n)]
             me = Obj("instance", {"chunks": objs, "capacity": Sym(cap), "default_alignment": Sym(Poly.atom("A")), "grow_step": (Sym(gstep) if gstep is not None else None), "buffer": Opaque("storage0")}, cls=XB)
             def _nb(c):
-                I.effects.append(Effect("new_buffer", size=c))
+                st_new = Opaque(f"storage{len(I.effects) + 1}")
+                I.effects.append(Effect("new_buffer", size=c, ret=st_new))
                 if sc.get("refuse"):
                     out["state_at_refusal"] = ([(topoly(I.getattr(ch, "start")), topoly(I.getattr(ch, "end"))) for ch in I.getattr(me, "chunks")], topoly(I.getattr(me, "capacity")), I.getattr(me, "buffer"))
                     raise PyExc("MemoryError", "cannot allocate the new storage")
-                return Opaque(f"storage{len(I.effects)}")
+                return st_new
 
             me.attrs["_new_buffer"] = Builtin("_new_buffer", _nb)
             out["me"] = me
-            me.attrs["copy_to_native"] = Builtin("copy_to_native", lambda *a, **k: I.effects.append(Effect("copy_to_native", args=a, kwargs=k, cap=I.getattr(me, "capacity"))))
+            me.attrs["copy_to_native"] = Builtin("copy_to_native", lambda *a, **k: I.effects.append(Effect("copy_to_native", args=a, kwargs=k, cap=I.getattr(me, "capacity"), src=I.getattr(me, "buffer"))))
             out["ret"] = I.call(I.getattr(me, "allocate"), [Sym(z)], {"align": sc["align"]})
+            out["storage"] = I.getattr(me, "buffer")
             out["chunks"] = [(topoly(I.getattr(c, "start")), topoly(I.getattr(c, "end"))) for c in I.getattr(me, "chunks")]
             out["cap"] = topoly(I.getattr(me, "capacity"))
             out["eff"] = list(I.effects)
@@ -455,7 +457,15 @@ def am(cx):
         if len(nb) != len(wgrow) or len(cp) != len(wgrow):
             probs.append(f"{len(nb)} growth(s) / {len(cp)} copies, the reference grows {len(wgrow)} time(s)" + (" (the buffer grows although a free chunk holds the request)" if len(nb) > len(wgrow) else ""))
         else:
+            prev_storage = "storage0"
             for (oldcap, g), e1, e2 in zip(wgrow, nb, cp):
+                src_tag = getattr(e2.src, "tag", None)
+                dst = dict(e2.kwargs).get("dest", e2.args[0] if e2.args else None)
+                if src_tag != prev_storage:
+                    probs.append(f"the growth copy reads {src_tag} (the storage was swapped before its bytes were saved); the old bytes are in {prev_storage}")
+                elif dst is not e1.ret:
+                    probs.append("the growth copy does not go into the new storage")
+                prev_storage = e1.ret.tag
                 if topoly(e1.size) != oldcap + g:
                     probs.append(f"new storage of {e1.size!r} bytes, reference {oldcap + g!r}")
                 kw = dict(e2.kwargs)
@@ -464,6 +474,8 @@ def am(cx):
                     kw[nm] = v
                 if topoly(kw.get("nbytes")) != oldcap or topoly(kw.get("dest_offset")) != Poly.const(0) or topoly(kw.get("source_offset")) != Poly.const(0):
                     probs.append(f"growth copies nbytes={kw.get('nbytes')!r} from {kw.get('source_offset')!r} to {kw.get('dest_offset')!r}; every stored byte (0..{oldcap!r}) must be kept")
+            if wgrow and getattr(out.get("storage"), "tag", None) != prev_storage:
+                probs.append(f"after growing the buffer still uses {getattr(out.get('storage'), 'tag', None)}, the bytes are in {prev_storage}")
         if probs:
             for msg in probs[:2]:
                 cx.bad(f_alloc, construct=f"{label}: {msg}", detail="allocate/grow differ from the first-fit reference model on this abstract state", sub="model")
